@@ -1,7 +1,8 @@
 #!/usr/bin/env bash
 # full sensitivity/specificity matrix: every seeded change x every quick check
+# usage: tools/matrix.sh [name ...]   (default: all of seeded/)
 ROOT="$(cd "$(dirname "${BASH_SOURCE[0]}")/.." && pwd)"
-for d in "$ROOT"/seeded/*/; do
-  n=$(basename "$d")
-  "$ROOT/tools/try_mutant.sh" "$n" "$d/patch.diff" C06 C07 C09 C10 C11 C12 C13 C18 C14
+if [ $# -gt 0 ]; then names=("$@"); else names=(); for d in "$ROOT"/seeded/*/; do names+=("$(basename "$d")"); done; fi
+for n in "${names[@]}"; do
+  "$ROOT/tools/try_mutant.sh" "$n" "$ROOT/seeded/$n/patch.diff" C06 C07 C09 C10 C11 C12 C13 C18 C14
 done
